@@ -11,6 +11,7 @@ BASE = 10 ** 12            # virtual clock base (0 means "unset" for overloadTim
 SEC = 10 ** 9
 MS = 10 ** 6
 COOL = SEC
+DEFAULTS = {"window": 5 * SEC, "buckets": 50, "threshold": 900}   # = Model.default_config = today's source (GenProofs.v)
 OVERLAY = {
     "core/load/verif_c02_test.go": os.path.join(vlib.HARNESS, "overlay/load/verif_c02_test.go"),
     "core/stat/verif_cpu.go": os.path.join(vlib.HARNESS, "overlay/stat/verif_cpu.go"),
@@ -29,9 +30,12 @@ EXECUTORS = {   # executor -> (package, overlay, test)
 }
 EXEC_OF = {"shed": "shed", "multi": "shed", "group": "group", "rest": "rest", "wrest": "rest", "rpc": "rpc", "wrpc": "rpc"}
 REST_CODES = [200, 201, 204, 301, 400, 404, 429, 500, 502, 503, 503, 504]
-RPC_OUTS = ["ok", "err", "deadline", "wrapped", "status_deadline", "panic"]
+RPC_OUTS = ["ok", "err", "deadline", "wrapped", "status_deadline", "panic",
+            # the request's own outcome collides with the shedder's values
+            "overloaded", "own_exhausted", "canceled", "panic_overloaded"]
 RPC_COQ = {"ok": "GOk", "err": "GErr", "deadline": "GDeadline", "wrapped": "GWrappedDeadline",
-           "status_deadline": "GStatusDeadline", "panic": "GPanic"}
+           "status_deadline": "GStatusDeadline", "panic": "GPanic", "overloaded": "GOverloaded",
+           "own_exhausted": "GExhausted", "canceled": "GCanceled", "panic_overloaded": "GPanicOverloaded"}
 TWO30 = Fraction(2 ** 30)
 
 # The runner evaluates cases in shards of 400 per coqc process; a C02 case costs ~50-100 ms
@@ -50,7 +54,7 @@ def _coq_eval_cases_small_shards(prop, check_module, terms, preamble="", shard=4
     if prop != "C02" or not terms:
         return _coq_eval_cases(prop, check_module, terms, preamble=preamble, shard=shard, timeout=timeout)
     import concurrent.futures
-    shard = max(4, min(40, (len(terms) + 2 * vlib.NCPU - 1) // (2 * vlib.NCPU)))
+    shard = max(4, min(40, (len(terms) + vlib.NCPU - 1) // vlib.NCPU))
     shards = [terms[i:i + shard] for i in range(0, len(terms), shard)]
 
     def work(ix):
@@ -75,7 +79,9 @@ def _coq_eval_cases_small_shards(prop, check_module, terms, preamble="", shard=4
             rs.append(pairs[k])
             k += 1
             if j in extra:
-                EXCL_CACHE[t] = pairs[k][0]
+                # recognised as the known finding only if the model - which pins the NaN corner exactly at
+                # threshold = cpuMax = reading - reproduces the whole history (agrees) and every other clause holds
+                EXCL_CACHE[t] = pairs[k][0] and rs[-1][0]
                 k += 1
         return rs
 
@@ -94,7 +100,7 @@ def dyadic(m, e):
 class C02(Property):
     id = "C02"
     title = "Adaptive load shedder: sheds only when overloaded and over capacity"
-    quick_cases = 360
+    quick_cases = 280
     thorough_cases = 9000
     design_ref = "DESIGN.md §6/C02"
     level_text = ("Unbounded Rocq theorems over every configuration, every history of Allow/Pass/Fail with arbitrary clock "
@@ -168,7 +174,8 @@ class C02(Property):
         ops = pre + [["allow", B + 5, 1000, 1000], ["allow", B + 6, 1001, 1001], ["allow", B + 7, 1000, 999]]
         cs.append(self._case(5 * SEC, 50, 1000, B, ops, mode="split"))
         # disabled, directly and through a group
-        ops = [["allow", B, 1000, 1000] for _ in range(5)] + [["pass", 0, B + 1], ["fail", 1], ["allow", B + 2, 1000, 1000]]
+        ops = ([["allow", B, 1000, 1000] for _ in range(20)] + [["pass", 0, B + 1]] + [["fail", i] for i in range(1, 10)]
+               + [["allow", B + 2, 1000, 1000]])
         cs.append(self._case(5 * SEC, 50, 900, B, ops, enabled=False))
         cs.append(self._case(5 * SEC, 50, 900, B, ops, enabled=False, via="group"))
         # bucket boundary: passes land in bucket 0; read at the last instant of bucket 1 / first of bucket `size`
@@ -214,7 +221,8 @@ class C02(Property):
         ops += [["start", B + 150 * MS, 950, 12], ["start", B + 150 * MS, 950, 13], ["finish", 18, B + 151 * MS]]
         ops += [["finish", i, B + 160 * MS] for i in range(6, 12)] + [["start", B + 161 * MS, 1000, 0]]
         cs.append({"kind": "wrest", "window": 5 * SEC, "buckets": 50, "threshold": 900, "t0": B, "reqs": reqs, "ops": ops})
-        outs = ["ok", "panic", "deadline", "wrapped", "err", "status_deadline"] + ["ok"] * 8
+        outs = ["ok", "panic", "deadline", "wrapped", "err", "status_deadline", "overloaded", "own_exhausted", "canceled",
+                "panic_overloaded"] + ["ok"] * 4
         cs.append({"kind": "wrpc", "window": 5 * SEC, "buckets": 50, "threshold": 900, "t0": B,
                    "reqs": [{"out": o} for o in outs], "ops": ops})
         # wrappers: every outcome class, shed and let in, with and without panic / body; no shedder configured
@@ -237,9 +245,24 @@ class C02(Property):
                 cs.append(obj.get("case", obj))
         return cs
 
-    def _case(self, window, buckets, th, t0, ops, enabled=True, via="direct", mode="real"):
-        return {"window": window, "buckets": buckets, "threshold": th, "t0": t0, "enabled": enabled,
-                "via": via, "mode": mode, "ops": ops}
+    def _case(self, window, buckets, th, t0, ops, enabled=True, via="direct", mode="real", omit=()):
+        c = {"window": window, "buckets": buckets, "threshold": th, "t0": t0, "enabled": enabled,
+             "via": via, "mode": mode, "ops": ops}
+        if omit:
+            c["omit"] = sorted(omit)
+        return c
+
+    @staticmethod
+    def _omit(rng, window, buckets, th):
+        """leave some options out: the constructor's defaults apply (and the case says so)"""
+        omit = [k for k in ("window", "buckets", "threshold") if rng.random() < 0.45]
+        vals = {"window": window, "buckets": buckets, "threshold": th}
+        for k in omit:
+            vals[k] = DEFAULTS[k]
+        if vals["window"] < vals["buckets"]:     # a bucket must last at least 1 ns
+            omit = [k for k in omit if k not in ("window", "buckets")]
+            vals["window"], vals["buckets"] = window, buckets
+        return vals["window"], vals["buckets"], vals["threshold"], omit
 
     CONFIGS = [(5 * SEC, 50), (5 * SEC, 50), (SEC, 10), (SEC, 1), (2 * SEC, 2), (3 * SEC, 10), (10 * SEC, 50), (10 * SEC, 7),
                (3200 * MS, 50), (3200 * MS, 50), (1600 * MS, 25), (6400 * MS, 50), (50 * MS, 50), (500 * MS, 10), (64 * MS, 4),
@@ -248,7 +271,7 @@ class C02(Property):
                # WithWindow(time.Minute), 2 s, one 60 s bucket), tiny windows (1 ns / 3 ns / 100 ns buckets)
                (3750 * MS, 50), (750 * MS, 10), (3 * SEC, 5), (60 * SEC, 50), (60 * SEC, 50), (10 * SEC, 5), (60 * SEC, 1),
                (MS, 3), (50, 50), (7, 2), (1000, 10), (3 * SEC, 4), (1500 * MS, 1)]
-    THRESHOLDS = [900] * 8 + [500, 100, 990, 936, 0, 0, 1000, 1000, 1100, 999, 1, -5]
+    THRESHOLDS = [900] * 8 + [500, 100, 990, 936, 0, 0, 1000, 1000, 1100, 999, 1, -5, 10 ** 15]
 
     def _config(self, rng):
         r = rng.random()
@@ -287,9 +310,15 @@ class C02(Property):
             if r0 < 0.34:
                 cases.append(self._gen_wreal(rng, tier))
                 continue
+            if r0 < 0.42:
+                cases.append(self._gen_phased(rng))
+                continue
             window, buckets = self._config(rng)
-            bd = window // buckets
             th = rng.choice(self.THRESHOLDS)
+            omit = []
+            if rng.random() < 0.25:
+                window, buckets, th, omit = self._omit(rng, window, buckets, th)
+            bd = window // buckets
             t0 = BASE + rng.choice([0, 1, rng.randrange(10 * SEC)])
             enabled = rng.random() > 0.04
             via = "group" if rng.random() < 0.15 else "direct"
@@ -311,6 +340,7 @@ class C02(Property):
                 if rng.random() < 0.6:
                     window, buckets = rng.choice([(SEC, 1), (2 * SEC, 2), (4 * SEC, 3), (10 * SEC, 7), (3 * SEC, 2)])
                     bd = window // buckets
+                    omit = [k for k in omit if k == "threshold"]
                 lat_style = rng.choice(["short", "short", "mixed"])
             step = 0
             while len(ops) < nops:
@@ -341,8 +371,48 @@ class C02(Property):
                     ops.append(rng.choice([["pass", i, t], ["fail", i]]))
                 else:
                     t += self._gap(rng, bd, window, lat_style)
-            cases.append(self._case(window, buckets, th, t0, ops[:nops], enabled, via, mode))
+            cases.append(self._case(window, buckets, th, t0, ops[:nops], enabled, via, mode, omit))
         return cases
+
+    # multi-phase history on one shedder: warm up - overload and shed - drain to idle - pause - refill and overload
+    # again - drain - an Allow on the idle shedder under full CPU (never shed)
+    def _gen_phased(self, rng):
+        window, buckets = rng.choice([(5 * SEC, 50), (SEC, 10), (3 * SEC, 5), (3750 * MS, 50), (10 * SEC, 5), (2 * SEC, 2), (60 * SEC, 50)])
+        bd = window // buckets
+        th = rng.choice([900, 900, 500, 0, 990])
+        t0 = BASE + rng.choice([0, 1, rng.randrange(10 * SEC)])
+        ops, open_ids = [], []
+        t = t0
+
+        def allows(n, cpu):
+            for _ in range(n):
+                open_ids.append(len(ops))
+                ops.append(["allow", t, cpu, cpu])
+
+        def resolve(n, how):
+            for _ in range(min(n, len(open_ids))):
+                i = open_ids.pop(rng.randrange(len(open_ids)))
+                ops.append(["pass", i, t] if how == "pass" or (how == "mix" and rng.random() < 0.6) else ["fail", i])
+
+        hi = max(th, 0) + rng.choice([0, 1, 50, 1000])
+        lo = th - rng.choice([1, 100]) if th > 0 else -1
+        for phase in range(rng.choice([2, 2, 3])):
+            allows(rng.randint(4, 14), lo)                          # warm up: a bucket of passes with some latency
+            t += rng.choice([MS, 5 * MS, 30 * MS, bd // 2])
+            resolve(rng.randint(3, 12), "pass")
+            t += rng.choice([bd, bd + 1, 2 * bd])                   # that bucket is complete now
+            allows(rng.randint(6, 20), lo)
+            resolve(rng.randint(2, 8), rng.choice(["fail", "mix"]))  # the average follows
+            allows(rng.randint(2, 5), hi)                           # overloaded: sheds when above the estimate
+            t += rng.choice([1, MS, COOL - 1 - MS, COOL // 2])
+            allows(rng.randint(1, 4), lo)                           # cooling off
+            resolve(len(open_ids), rng.choice(["pass", "mix", "fail"]))   # drain to idle
+            allows(1, hi)                                           # idle + overloaded: let in
+            resolve(1, "fail")
+            t += rng.choice([COOL - 1, COOL, COOL + 1, bd, window - bd, window, 2 * window + 1, 10 * window])
+            allows(1, lo)
+            resolve(1, "pass")
+        return self._case(window, buckets, th, t0, ops[:160])
 
     # several shedders of one process (directly built and members of ONE ShedderGroup), built at different
     # moments, load.Disable() possibly in between, their Allow / Pass / Fail operations interleaved
@@ -476,6 +546,8 @@ class C02(Property):
             pool = [rng.randrange(1, 900 * MS), rng.choice(edge), rng.randrange(1, window + 1), 100 * MS]
         else:
             pool = [rng.randrange(1, 3 * MS), rng.randrange(1, 300 * MS), rng.choice(edge), rng.randrange(1, 2 * bd + 1)]
+        if rng.random() < 0.01:
+            return rng.choice([10 ** 15, 3 * 10 ** 16])       # days, a year: every bucket expired, latencies of 10^9 ms
         return max(0, rng.choice(pool))
 
     # ---- execution -----------------------------------------------------------
@@ -493,7 +565,7 @@ class C02(Property):
             else:
                 ops.append(["fail", 0, o[1] + off])
         cfg = {"window": case["window"], "buckets": case["buckets"], "threshold": case["threshold"],
-               "via": case["via"], "key": "k"}
+               "via": case["via"], "key": "k", "omit": case.get("omit", [])}
         return {"t0": case["t0"], "mode": case["mode"], "group": cfg if case["via"] == "group" else None,
                 "shedders": [cfg], "ops": ops}, off
 
@@ -599,7 +671,7 @@ class C02(Property):
             for q, o in zip(case["reqs"], obs["obs"]):
                 rq = "WRpc %s %s" % ("VShed" if q["shed"] else "VGrant", RPC_COQ[q["out"]])
                 ob = "WO %s %s %s %s %s %s" % (cz(o["runs"]), cz(o["allows"]), cz(o["passes"]), cz(o["fails"]),
-                                               self._rpc_vis(o), cbool(o["panic"]))
+                                               self._rpc_vis(o, q["out"]), cbool(o["panic"]))
                 items.append("(%s, %s)" % (rq, ob))
             return "CWrap %s" % clist(items)
         if kind == "group":
@@ -612,10 +684,16 @@ class C02(Property):
         return "CShed (%s)" % self._coq_shed(case, obs)
 
     @staticmethod
-    def _rpc_vis(o):
+    def _rpc_vis(o, out=None):
+        """what the caller saw.  The executor classifies the error by its value; codes.ResourceExhausted is the
+        shed answer when the handler did not run and the handler's own error when it did (and asked for it)."""
         v = o["vis"]
-        vis = "VisExhausted" if v == "exhausted" else ("(VisRpc %s)" % RPC_COQ[v] if v in RPC_COQ else "(VisStatus (-1))")
-        if v in RPC_COQ and v != "panic" and not o["val"]:
+        if v == "exhausted":
+            if o.get("runs") and out == "own_exhausted":
+                return "(VisStatus (-2))" if not o["val"] else "(VisRpc GExhausted)"
+            return "VisExhausted"
+        vis = "(VisRpc %s)" % RPC_COQ[v] if v in RPC_COQ else "(VisStatus (-1))"
+        if v in RPC_COQ and not v.startswith("panic") and not o["val"]:
             vis = "(VisStatus (-2))"   # the handler's value was lost
         return vis
 
@@ -630,11 +708,15 @@ class C02(Property):
                     vis = "(VisStatus %s)" % cz(b["code"] if b["shed"] else 0)
                 else:
                     wo = "(WoRpc %s)" % RPC_COQ[q["out"]]
-                    vis = self._rpc_vis(dict(b, val=True)) if b["shed"] else "(VisStatus 0)"
+                    vis = self._rpc_vis(dict(b, val=True), q["out"]) if b["shed"] else "(VisStatus 0)"
                 op = "WStart %s %s %s" % (cz(o[1]), cz(o[2]), wo)
                 ob = "WSO %s %s %s %s %s %s %s" % (cbool(b["shed"]), cz(b["allows"]), cz(b["runs"]), vis, cz(b["fl"]), cz(b["am"]), cz(b["ae"]))
             else:
-                vis = ("(VisStatus %s)" % cz(b["code"])) if rest else (self._rpc_vis(b) if b["done"] else "(VisStatus 0)")
+                if rest:
+                    vis = "(VisStatus %s)" % cz(b["code"])
+                else:
+                    st = case["ops"][o[1]]
+                    vis = self._rpc_vis(b, case["reqs"][st[3]]["out"]) if b["done"] else "(VisStatus 0)"
                 op = "WFinish %s %s" % (cz(o[1]), cz(o[2]))
                 ob = "WFO %s %s %s %s %s %s %s %s" % (cbool(b["done"]), cz(b["passes"]), cz(b["fails"]), vis, cbool(b["panic"]),
                                                       cz(b["fl"]), cz(b["am"]), cz(b["ae"]))
@@ -925,10 +1007,12 @@ class C02(Property):
     KNOWN_NAN = "nan-factor-threshold-eq-cpumax"
 
     def known(self, case, obs):
-        """The known finding, and only it: cpuThreshold = cpuMax, some admitted Allow whose checker and factor
-        readings are exactly cpuMax, and the history satisfies every clause of the property once
-        shed_when_saturated carries its excluding hypothesis (Check.prop_ok_excl, evaluated in Coq) - i.e. the only
-        failing clause is shed_when_saturated at the NaN corner."""
+        """The known finding, and only it: cpuThreshold = cpuMax, some admitted Allow whose checker reading is at
+        least cpuMax and whose factor reading is exactly cpuMax, the history satisfies every clause of the property
+        once shed_when_saturated carries its excluding hypothesis (Check.prop_ok_excl, evaluated in Coq) - i.e. the
+        only failing clause is shed_when_saturated at the NaN corner - AND the model, in which that corner is pinned
+        (Model.overload_factor = None exactly there; Pinned.shed_when_saturated_refuted_at_threshold_cpuMax),
+        reproduces the whole history (Check.agrees)."""
         if case.get("kind", "shed") != "shed" or case.get("threshold") != 1000 or obs.get("nop"):
             return None
         if not any(o[0] == "allow" and o[2] >= 1000 and o[3] == 1000 and not b["shed"]
@@ -936,9 +1020,9 @@ class C02(Property):
             return None
         term = self.coq_case(case, obs)
         if term not in EXCL_CACHE:      # normally filled by the bulk evaluation; this is the fall-back
-            out = vlib.coq_eval_term(self.id, self.check_module or "C02.Check", "(prop_ok_excl (%s), true)" % term)
+            out = vlib.coq_eval_term(self.id, self.check_module or "C02.Check", "(prop_ok_excl (%s), agrees (%s))" % (term, term))
             m = vlib.PAIR_RE.search(out)
-            EXCL_CACHE[term] = bool(m and m.group(1) == "true")
+            EXCL_CACHE[term] = bool(m and m.group(1) == "true" and m.group(2) == "true")
         # known() is only consulted for histories whose prop_ok is false
         return self.KNOWN_NAN if EXCL_CACHE[term] else None
 
